@@ -423,9 +423,10 @@ func (s *ReverseInnerSearcher) Find(haystack []byte) *Match {
 
 		// Step 2: Forward search on SUFFIX portion
 		// Find the end of the match (forward DFA finds longest match = greedy)
-		suffixHaystack := haystack[pos:]
-		matchEndRel := s.forwardDFA.Find(fwdCache, suffixHaystack)
-		if matchEndRel < 0 {
+		// The suffix (inner literal and what follows it) has to match right at
+		// pos: an unanchored search would pair this start with a later occurrence.
+		matchEndAbs := s.forwardDFA.SearchAtAnchored(fwdCache, haystack, pos)
+		if matchEndAbs < 0 {
 			// Suffix doesn't match - update minPreStart and try next candidate
 			minPreStart = pos + s.innerLen
 			searchStart = pos + 1
@@ -437,7 +438,7 @@ func (s *ReverseInnerSearcher) Find(haystack []byte) *Match {
 
 		// EARLY RETURN: First confirmed match is leftmost by construction!
 		// Forward DFA already finds the longest match from this start position.
-		matchEnd := pos + matchEndRel
+		matchEnd := matchEndAbs
 		return NewMatch(matchStart, matchEnd, haystack)
 	}
 
@@ -509,8 +510,7 @@ func (s *ReverseInnerSearcher) IsMatch(haystack []byte) bool {
 
 		if prefixMatches {
 			// Step 2: Check if suffix matches (forward DFA from inner position)
-			suffixHaystack := haystack[pos:]
-			if s.forwardDFA.IsMatch(fwdCache, suffixHaystack) {
+			if s.forwardDFA.SearchAtAnchored(fwdCache, haystack, pos) >= 0 {
 				// Both prefix and suffix match - pattern matches!
 				return true
 			}
@@ -595,9 +595,10 @@ func (s *ReverseInnerSearcher) findIndicesAtImpl(haystack []byte, at int, fwdCac
 		}
 
 		// Step 2: Forward search on SUFFIX portion
-		suffixHaystack := haystack[pos:]
-		matchEndRel := s.forwardDFA.Find(fwdCache, suffixHaystack)
-		if matchEndRel < 0 {
+		// The suffix (inner literal and what follows it) has to match right at
+		// pos: an unanchored search would pair this start with a later occurrence.
+		matchEndAbs := s.forwardDFA.SearchAtAnchored(fwdCache, haystack, pos)
+		if matchEndAbs < 0 {
 			// Suffix doesn't match - try next candidate
 			searchStart = pos + 1
 			if searchStart >= len(haystack) {
@@ -607,7 +608,7 @@ func (s *ReverseInnerSearcher) findIndicesAtImpl(haystack []byte, at int, fwdCac
 		}
 
 		// Found valid match
-		matchEnd := pos + matchEndRel
+		matchEnd := matchEndAbs
 		return matchStart, matchEnd, true
 	}
 
